@@ -1878,7 +1878,27 @@ class Engine:
         """try/except[/else]: exception edges of the body that a handler catches become control flow into
         that handler (first matching handler, Python semantics); everything else propagates."""
         if s.finalbody:
-            raise Unsupported("try/finally")
+            # try/.../finally: the finally block runs on every way out of the protected part (fall-through, return,
+            # break/continue, an exception that propagates); if it completes normally the original outcome stands
+            inner = ast.Try(body=s.body, handlers=s.handlers, orelse=s.orelse, finalbody=[], lineno=s.lineno,
+                            col_offset=s.col_offset) if (s.handlers or s.orelse) else None
+            frame = {"catches": ["BaseException"], "edges": []}
+            if not hasattr(self, "try_stack"):
+                self.try_stack = []
+            self.try_stack.append(frame)
+            try:
+                outs = self.st_Try(inner, st) if inner is not None else self.exec_block(s.body, st)
+            finally:
+                self.try_stack.pop()
+            outs = list(outs) + [Outcome("raise", est, exc=excname, lineno=ln) for excname, est, ln in frame["edges"]]
+            results: List[Outcome] = []
+            for o in outs:
+                for fo in self.exec_block(s.finalbody, o.st):
+                    if fo.kind == "fall":
+                        results.append(Outcome(o.kind, fo.st, o.value, exc=o.exc, lineno=o.lineno))
+                    else:
+                        results.append(fo)       # the finally block itself returns / raises: that wins
+            return results
         handlers = []
         for h in s.handlers:
             if h.type is None:
